@@ -105,7 +105,8 @@ impl Model {
         let e = match op {
             Op::CreateDir(_) => {
                 if p.is_empty() {
-                    fail(true, vec![])
+                    // the root is an occupied path
+                    fail(true, vec![Kind::DirExists])
                 } else if !parent_is_dir(&m, &p) {
                     fail(true, vec![])
                 } else {
